@@ -131,6 +131,11 @@ class Report:
         else:
             self.ok(rule + ".floor", "-", f"count>={minimum}", f"{n} instances")
 
+    def scoped(self, suffix):
+        """A view of this report whose rule names carry `@suffix` (used for the extra configurations of the thorough tier);
+        floors are not applied to scoped rules."""
+        return _Scoped(self, suffix)
+
     def guarded(self, rule, anchor, fn):
         """Run one rule; a missing anchor or an unrecognised construct is a violation, never a silent pass."""
         try:
@@ -144,6 +149,42 @@ class Report:
             self.bad(rule, anchor, "unrecognised-shape",
                      f"unrecognised-shape ({type(e).__name__}: {e}) — the anchored code no longer has the shape the "
                      f"rule reads; fail closed. {' / '.join(t.strip() for t in tb)}")
+
+
+class _Scoped:
+    def __init__(self, base, suffix):
+        self._b, self._s = base, suffix
+        self.prop, self.tier = base.prop, base.tier
+
+    def _r(self, rule):
+        return f"{rule}@{self._s}"
+
+    def ok(self, rule, anchor, instance, detail="", where=""):
+        self._b.ok(self._r(rule), anchor, instance, detail, where)
+
+    def bad(self, rule, anchor, instance, detail, where=""):
+        self._b.bad(self._r(rule), anchor, instance, detail, where)
+
+    def check(self, cond, rule, anchor, instance, detail="", where=""):
+        return self._b.check(cond, self._r(rule), anchor, instance, detail, where)
+
+    def note(self, text):
+        self._b.note(f"[{self._s}] {text}")
+
+    def count(self, n=1):
+        self._b.count(n)
+
+    def fn(self, path):
+        self._b.fn(path)
+
+    def floor(self, rule, minimum):
+        pass
+
+    def guarded(self, rule, anchor, fn):
+        self._b.guarded(self._r(rule), anchor, fn)
+
+    def scoped(self, suffix):
+        return _Scoped(self._b, f"{self._s}.{suffix}")
 
 
 def load_known(path=None):
@@ -225,6 +266,7 @@ def finish(report, meta):
             "configurations": meta.get("configurations", ["default"]),
             "repo": extract.repo_root(),
             "known_findings_hit": [o["key"] for o in listed],
+            "selftest": meta.get("selftest"),
         },
         "assumptions": meta.get("assumptions", []),
         "wall_s": round(time.time() - report.t0 + meta.get("extract_wall_s", 0.0), 3),
